@@ -157,7 +157,7 @@ def rand_history(rng, hid, transport, nsteps, ntids=8, maxrto=60000, us=False, c
     if crowd:
         addrs = ["a%d" % i for i in range(1, 329)]
         nsteps = 700
-    if rng.random() < 0.12:
+    if rng.random() < 0.12 and not crowd:
         # many distinct peers (a population larger than any small fixed-size table)
         addrs = ["a%d" % i for i in range(1, 49)]
         nsteps = max(nsteps, 140)
